@@ -173,6 +173,9 @@ structure StA where
   /-- header `tbfix=1`: the TangentBundle traversal under test has the F175 repair (validates the state it
   is about to store); `tbfix=0`: the traversal before the repair (`tbGeodesicOld`) -/
   tbFixed : Bool := true
+  /-- header `sifix=1`: `TangentBundleSpaceInformation::checkMotion` has the F460 repair (falls back to `s1`, fraction 0,
+  when the projection of `lastValid.first` fails) -/
+  siFixed : Bool := false
 
 def initA (ts : List String) : Option StA := do
   let b ← init ts
@@ -181,7 +184,7 @@ def initA (ts : List String) : Option StA := do
     let k := ((kvGet rest "k").bind String.toNat?).getD 0
     let g (key : String) (d : Float) : Float := ((kvGet rest key).bind parseFloatBits?).getD d
     let maxc := ((kvGet rest "maxc").bind String.toNat?).getD 200
-    some ⟨b, k, ⟨b.P.delta, b.P.lambda, g "eps" 0.05, g "cosa" 0.0, g "backoff" 0.75, maxc⟩, {}, (kvGet rest "tbfix") != some "0"⟩
+    some ⟨b, k, ⟨b.P.delta, b.P.lambda, g "eps" 0.05, g "cosa" 0.0, g "backoff" 0.75, maxc⟩, {}, (kvGet rest "tbfix") != some "0", (kvGet rest "sifix") == some "1"⟩
   | [] => none
 
 partial def parseAEvs (n k : Nat) (ts : List String) (acc : Array AEv) : Option (List AEv) :=
@@ -338,7 +341,7 @@ def stepA (st : StA) (ts : List String) : StA × String :=
         let geo : Geo ASt Vec := fun s _ _ _ => (gret, g, s)
         let cm := checkMotion2 A Am O.isSat O.valid geo hf ⟨evs, false⟩ a b
         let cur : Option Vec := if hf then some (Array.replicate n 12345.678) else none
-        match tbSiCheckMotion (tbProject O) cur cm with
+        match (if st.siFixed then tbSiCheckMotionFixed (tbProject O) A.zero cur a cm else tbSiCheckMotion (tbProject O) cur cm) with
         | some r => pure (s!"v={b01 r.verdict} first= {showOptVec r.first} second={showOptF r.second}" ++ tailA r.st)
         | none => pure "v=none"
       | _ => none
